@@ -373,7 +373,7 @@ theorem isdisjoint_of_subset (a b c : TI) (ha : WF a) (hb : WF b) (hc : WF c)
     (Set.disjoint_of_subset_left ((issubset_iff a b ha hb).mp h1) ((isdisjoint_iff b c hb hc).mp h2))
 
 /-- `copy` is equal to the original -/
-theorem copy_eq (a : TI) : a.copy.eq a = true := by
+theorem copy_eq_self (a : TI) : a.copy.eq a = true := by
   cases a; simp [copy, eq]
 
 /-! ### non-vacuity: the hypotheses are met by concrete, non-trivial intervals -/
